@@ -1017,6 +1017,20 @@ class Config:  # pylint: disable=too-many-instance-attributes
         else:
             self.__keyfile = KeyFile(key_filename)
 
+    def _take_keyfiles(self, other: Any) -> None:
+        """
+        Take over the key files that ``other``, the configuration that this one replaces, and its
+        sub-configurations name.
+        """
+        if not isinstance(other, Config):
+            return
+        if other.__keyfile:
+            self.__keyfile = other.__keyfile
+        for key, value in other._data.items():
+            mine = self._data.get(key)
+            if isinstance(mine, Config):
+                mine._take_keyfiles(value)
+
     @property
     def _keyfile(self) -> KeyFile:
         """
@@ -1092,6 +1106,8 @@ class Config:  # pylint: disable=too-many-instance-attributes
             # both Schema and ConfigTypeField implement __call__, which will return a Config object
             cfg = field(self)
             cfg._key = key
+            # the sub-configuration is rebuilt: it keeps the key files named in the old one
+            cfg._take_keyfiles(self._data.get(key))
             cfg.load_tree(value)  # load_tree will raise a ValidationError on error
             value = cfg
         else:
